@@ -33,6 +33,13 @@ def gen_cases(r, scale):
                 code = code[: rnd.randrange(len(code))]
                 kind = "truncated"
             cases.append({"table": name, "code": code, "kind": kind})
+        # word code before 3.11: operands of 2^31 and more (three EXTENDED_ARG prefixes) are plain unsigned numbers there
+        vt = tuple(t["version_tuple"][:2])
+        om = dict(t["opmap"]) if not isinstance(t["opmap"], dict) else t["opmap"]
+        if (3, 6) <= vt <= (3, 10) and "EXTENDED_ARG" in om and "LOAD_CONST" in om:
+            ea, lc = om["EXTENDED_ARG"], om["LOAD_CONST"]
+            for hi in (0x80, 0xFF):
+                cases.append({"table": name, "code": [ea, hi, ea, 0, ea, 1, lc, 2, lc, 0], "kind": "operand>=2^31"})
         # every defined opcode of the table at least once, whatever the seed
         for code in IG.all_opcodes(rnd, t, cz):
             cases.append({"table": name, "code": code, "kind": "all-opcodes"})
